@@ -1,9 +1,9 @@
-import A2Verif.Lemmas.FsDosPutB
+import A2Verif.Lemmas.FsDosPutT
 /-!
 # `put`, part C: the volume after the loop
 
-From the loop invariant at the end of the loop: the image is laid out as the old layout plus one file (T/S list
-`[uT]` at the position of the catalog slot), its reading is the old one with one record inserted.  Core Lean only.
+From what the loop has built (`Built`): the image is laid out as the old layout plus one file (T/S list chain `U`
+at the position of the catalog slot), its reading is the old one with one record inserted.  Core Lean only.
 -/
 set_option linter.unusedSimpArgs false
 namespace A2Verif.Fs.Dos3x
@@ -20,25 +20,6 @@ theorem all2_split_append {α β : Type} {R : α → β → Prop} : ∀ {L1 L2 :
     | cons hxb hr =>
       obtain ⟨T1, T2, rfl, h1, h2⟩ := ih hr
       exact ⟨_ :: T1, T2, rfl, All2.cons hxb h1, h2⟩
-
-theorem nodup_filterMap_inj {α : Type} {f : Nat → Option α} : ∀ {l : List Nat}, l.Nodup →
-    (∀ a b x, a ∈ l → b ∈ l → f a = some x → f b = some x → a = b) → (l.filterMap f).Nodup := by
-  intro l
-  induction l with
-  | nil => intro _ _; exact List.nodup_nil
-  | cons a l ih =>
-    intro hn hinj
-    have hnc := List.nodup_cons.1 hn
-    have ih' := ih hnc.2 (fun a' b x ha hb => hinj a' b x (List.mem_cons_of_mem _ ha) (List.mem_cons_of_mem _ hb))
-    rw [List.filterMap_cons]
-    cases hfa : f a with
-    | none => exact ih'
-    | some x =>
-      refine List.nodup_cons.2 ⟨?_, ih'⟩
-      intro hm
-      obtain ⟨b, hb, hfb⟩ := List.mem_filterMap.1 hm
-      have := hinj a b x List.mem_cons_self (List.mem_cons_of_mem _ hb) hfa hfb
-      exact hnc.1 (this ▸ hb)
 
 theorem pairwise_filterMap_idx {β : Type} {f : Nat → Option (Nat × β)} (hf : ∀ k x, f k = some x → x.1 = k) : ∀ (n m : Nat),
     (((List.range' n m).filterMap f).map (·.1)).Pairwise (· < ·) ∧ ∀ x ∈ ((List.range' n m).filterMap f).map (·.1), n ≤ x := by
@@ -59,76 +40,49 @@ theorem pairwise_filterMap_idx {β : Type} {f : Nat → Option (Nat × β)} (hf 
       · have := h2 x hx; omega
 
 
-theorem hereOf_idx (r : Raw) (c : Nat) (b : Bytes) :
-    (((hereOf r c b 0).map (fun x => (x.1, x.2.1))).map (·.1)).Pairwise (· < ·) := by
-  rw [List.map_map]
-  have : ((fun (x : Nat × Bytes) => x.1) ∘ fun (x : Nat × Bytes × Nat) => (x.1, x.2.1)) = fun x => x.1 := rfl
-  rw [this]
-  unfold hereOf
+theorem stored_idx (chunks : List (Nat × Bytes)) (n : Nat) : ((stored chunks (List.range n)).map (·.1)).Pairwise (· < ·) := by
+  unfold stored
   rw [List.range_eq_range']
-  exact (pairwise_filterMap_idx (β := Bytes × Nat) (f := fun k => if pairT b k = 0 then none else
-    some (0 + k, sec r (pairT b k * c + pairS b k), pairT b k * c + pairS b k)) (by
-      intro k x hx
-      by_cases h0 : pairT b k = 0
-      · simp [h0] at hx
-      · simp only [h0, if_false, Option.some.injEq] at hx
-        rw [← hx]; simp) 0 122).1
+  exact (pairwise_filterMap_idx (β := Bytes) (f := fun k => (chunks.lookup k).map (fun d => (k, quantize d))) (by
+    intro k x hx
+    cases hl : chunks.lookup k with
+    | none => rw [hl] at hx; cases hx
+    | some d => rw [hl] at hx; simp only [Option.map_some, Option.some.injEq] at hx; rw [← hx]) 0 n).1
 
 /-- the record `put` inserts -/
-theorem put_entry {w0 : W} {sb : List Nat} {L : Lay} (hi : WInv w0 sb L) {K : PCtx} (hk : PCtxOk K)
-    (hK1 : K.img0 = w0.img) (hK2 : K.v0 = w0.v) (hK3 : K.c = w0.c)
-    {st : LoopSt} {wf : W} (hli : LI K K.endIdx st wf) (hend : 0 < K.endIdx)
-    {e : Nat} {enew : Bytes} (hud : K.ud ∈ L.cat) (he : e < 7) (hdead : isLive (entryAt (sec w0.img K.ud) e) = false)
-    (hd1 : K.dir3.getD 1 0 = (sec w0.img K.ud).getD 1 0) (hd2 : K.dir3.getD 2 0 = (sec w0.img K.ud).getD 2 0)
-    (hde : entsOfSec K.dir3 = (entsOfSec (sec w0.img K.ud)).take e ++ enew :: (entsOfSec (sec w0.img K.ud)).drop (e + 1))
-    (hn0 : enew.getD 0 0 = K.tt) (hn1 : enew.getD 1 0 = K.tsec) (hnm : ∀ x ∈ slice enew 3 30, 128 ≤ x ∧ x < 256)
-    (hfresh : pathOfName (slice enew 3 30) ∉ (volOf w0.img w0.c sb L).paths) (htt1 : 1 ≤ K.tt) :
+theorem put_entry {w0 : W} {sb : List Nat} {L : Lay} (hi : WInv w0 sb L) {wf : W} {ud : Nat} {dir3 : Bytes}
+    {chunks : List (Nat × Bytes)} {endIdx tt tsec : Nat} {U : List Nat} (hb : Built w0 wf ud dir3 chunks endIdx tt tsec U)
+    {e : Nat} {enew : Bytes} (hud : ud ∈ L.cat) (he : e < 7) (hdead : isLive (entryAt (sec w0.img ud) e) = false)
+    (hd1 : dir3.getD 1 0 = (sec w0.img ud).getD 1 0) (hd2 : dir3.getD 2 0 = (sec w0.img ud).getD 2 0)
+    (hde : entsOfSec dir3 = (entsOfSec (sec w0.img ud)).take e ++ enew :: (entsOfSec (sec w0.img ud)).drop (e + 1))
+    (hn0 : enew.getD 0 0 = tt) (hn1 : enew.getD 1 0 = tsec) (hnm : ∀ x ∈ slice enew 3 30, 128 ≤ x ∧ x < 256)
+    (hfresh : pathOfName (slice enew 3 30) ∉ (volOf w0.img w0.c sb L).paths) (htt1 : 1 ≤ tt) :
     ∃ T1 T2 F1 F2,
-      WInv wf sb { cat := L.cat, tsls := T1 ++ [K.uT] :: T2 } ∧
+      WInv wf sb { cat := L.cat, tsls := T1 ++ U :: T2 } ∧
       (volOf w0.img w0.c sb L).files = F1 ++ F2 ∧
-      volOf wf.img w0.c sb { cat := L.cat, tsls := T1 ++ [K.uT] :: T2 } =
-        inserted (volOf w0.img w0.c sb L) F1 F2 (recOf wf.img w0.c enew [K.uT]) (freeOf wf.img w0.c) ∧
-      (recOf wf.img w0.c enew [K.uT]).owned = K.uT :: pairUnits w0.c st.tsl (List.range 122) ∧
-      (recOf wf.img w0.c enew [K.uT]).chunks = (hereOf wf.img w0.c st.tsl 0).map (fun x => (x.1, x.2.1)) ∧
-      (inserted (volOf w0.img w0.c sb L) F1 F2 (recOf wf.img w0.c enew [K.uT]) (freeOf wf.img w0.c)).wfB = true ∧
-      (recOf wf.img w0.c enew [K.uT]).owned.Nodup ∧
-      (∀ x ∈ (recOf wf.img w0.c enew [K.uT]).owned, x ∈ (volOf w0.img w0.c sb L).freeUnits) ∧
+      volOf wf.img w0.c sb { cat := L.cat, tsls := T1 ++ U :: T2 } =
+        inserted (volOf w0.img w0.c sb L) F1 F2 (recOf wf.img w0.c enew U) (freeOf wf.img w0.c) ∧
+      (recOf wf.img w0.c enew U).chunks = stored chunks (List.range endIdx) ∧
+      (inserted (volOf w0.img w0.c sb L) F1 F2 (recOf wf.img w0.c enew U) (freeOf wf.img w0.c)).wfB = true ∧
+      (recOf wf.img w0.c enew U).owned.Nodup ∧
+      (∀ x ∈ (recOf wf.img w0.c enew U).owned, x ∈ (volOf w0.img w0.c sb L).freeUnits) ∧
       (freeOf wf.img w0.c).Nodup ∧
-      (∀ x, x ∈ freeOf wf.img w0.c ↔ x ∈ (volOf w0.img w0.c sb L).freeUnits ∧ x ∉ (recOf wf.img w0.c enew [K.uT]).owned) ∧
-      ((recOf wf.img w0.c enew [K.uT]).chunks.map (·.1)).Pairwise (· < ·) := by
+      (∀ x, x ∈ freeOf wf.img w0.c ↔ x ∈ (volOf w0.img w0.c sb L).freeUnits ∧ x ∉ (recOf wf.img w0.c enew U).owned) ∧
+      ((recOf wf.img w0.c enew U).chunks.map (·.1)).Pairwise (· < ·) := by
   have hok := hi.ok
   have hd := hi.desc
-  have hokf := hli.wok
-  have hcf : wf.c = w0.c := by rw [hli.hc, hK3]
+  have hokf := hb.wok
+  have hcf : wf.c = w0.c := hb.hc
+  have hacc := hb.acc
   have hsz : wf.img.units.size = w0.img.units.size := by rw [W.img_size, W.img_size, hokf.size, hok.size, hcf]
-  have hT := hli.hT hend
   -- units written are free in the old buffer
-  have hnew_free : ∀ x, (x = K.uT ∨ ∃ k, k < 122 ∧ pairT st.tsl k ≠ 0 ∧ x = K.unit st.tsl k) → isFreeU w0.v w0.c x = true := by
-    rintro x (rfl | ⟨k, hk1, h0, rfl⟩)
-    · rw [← hK2, ← hK3]; exact hk.uTfree
-    · rw [← hK2, ← hK3]; exact (hli.dfree k hk1 h0).1
-  have hpb : ∀ k, k < 122 → pairT st.tsl k ≠ 0 → pairT st.tsl k < 35 ∧ pairS st.tsl k < w0.c := by
-    intro k hk1 h0
-    have hke : k < K.endIdx := by
-      rcases Nat.lt_or_ge k K.endIdx with h | h
-      · exact h
-      · exact absurd (hli.hole k hk1 (Or.inl h)) h0
-    cases hl : K.chunks.lookup k with
-    | none => exact absurd (hli.hole k hk1 (Or.inr hl)) h0
-    | some d => obtain ⟨_, a, b, _⟩ := hli.pres k d hke hl; exact ⟨a, by rw [← hK3]; exact b⟩
-  have hnew_lt : ∀ x, (x = K.uT ∨ ∃ k, k < 122 ∧ pairT st.tsl k ≠ 0 ∧ x = K.unit st.tsl k) → x < 35 * w0.c := by
-    rintro x (rfl | ⟨k, hk1, h0, rfl⟩)
-    · rw [hk.huT, ← hK3]; exact unit_lt hk.htt hk.htsec
-    · unfold PCtx.unit; rw [hK3]; exact unit_lt (hpb k hk1 h0).1 (hpb k hk1 h0).2
+  have hnew_free : ∀ x, x ∈ chainUnits wf.img w0.c U → isFreeU w0.v w0.c x = true := fun x hx => (hacc.free x hx).2
+  have hnew_lt : ∀ x, x ∈ chainUnits wf.img w0.c U → x < 35 * w0.c := fun x hx => (hacc.free x hx).1
   -- frame for units that are not free in the old buffer
-  have hsecO : ∀ x, x ≠ K.ud → x ≠ vtocTrack * w0.c → ¬ (x < 35 * w0.c ∧ isFreeU w0.v w0.c x = true) → sec wf.img x = sec w0.img x := by
+  have hsecO : ∀ x, x ≠ ud → x ≠ vtocTrack * w0.c → ¬ (x < 35 * w0.c ∧ isFreeU w0.v w0.c x = true) → sec wf.img x = sec w0.img x := by
     intro x h1 h2 h3
-    rw [← hK1]
-    apply hli.frame x _ h1 (by rw [hK3]; exact h2)
-    · intro k hk1 h0 e
-      exact h3 ⟨hnew_lt x (Or.inr ⟨k, hk1, h0, e⟩), hnew_free x (Or.inr ⟨k, hk1, h0, e⟩)⟩
-    · intro e; exact h3 ⟨hnew_lt x (Or.inl e), hnew_free x (Or.inl e)⟩
-  have hsysO : ∀ x, x ∈ (volOf w0.img w0.c sb L).sys → x ≠ K.ud → x ≠ vtocTrack * w0.c → sec wf.img x = sec w0.img x :=
+    exact hacc.frame x (fun hm => h3 ⟨hnew_lt x hm, hnew_free x hm⟩) h1 h2
+  have hsysO : ∀ x, x ∈ (volOf w0.img w0.c sb L).sys → x ≠ ud → x ≠ vtocTrack * w0.c → sec wf.img x = sec w0.img x :=
     fun x hx h1 h2 => hsecO x h1 h2 (sys_not_free hi hx)
   have hownO : ∀ f ∈ (volOf w0.img w0.c sb L).files, ∀ x ∈ f.owned, sec wf.img x = sec w0.img x := by
     intro f hf x hx
@@ -143,40 +97,41 @@ theorem put_entry {w0 : W} {sb : List Nat} {L : Lay} (hi : WInv w0 sb L) {K : PC
   have hvt : vtocOf wf.img w0.c = quantize wf.v := by have := vtocOf_img hokf; rw [hcf] at this; exact this
   have hgv : ∀ i, i < 0x38 → i ≠ 0x30 → i ≠ 0x31 → (vtocOf wf.img w0.c).getD i 0 = (vtocOf w0.img w0.c).getD i 0 := by
     intro i hi' a b
-    have hlen := hli.taken.ok.vlen
-    rw [hvt, getD_quantize (by rw [hlen]; omega) (by rw [hlen]; omega), hli.taken.low i hi' a b, hK2, getD_vtocOf hok (by omega)]
+    have hlen := hacc.taken.ok.vlen
+    rw [hvt, getD_quantize (by rw [hlen]; omega) (by rw [hlen]; omega), hacc.taken.low i hi' a b, getD_vtocOf hok (by omega)]
   -- the catalog chain
   obtain ⟨C1, C2, hcat⟩ := List.append_of_mem hud
   have hnd := hd.catNodup
   rw [hcat] at hnd
-  have hC1 : K.ud ∉ C1 := fun hm => (List.nodup_append.1 hnd).2.2 _ hm _ List.mem_cons_self rfl
-  have hC2 : K.ud ∉ C2 := (List.nodup_cons.1 (List.nodup_append.1 hnd).2.1).1
-  have hudF : sec wf.img K.ud = K.dir3 := hli.hud
+  have hC1 : ud ∉ C1 := fun hm => (List.nodup_append.1 hnd).2.2 _ hm _ List.mem_cons_self rfl
+  have hC2 : ud ∉ C2 := (List.nodup_cons.1 (List.nodup_append.1 hnd).2.1).1
+  have hudF : sec wf.img ud = dir3 := hb.hud
   have hcatch : CatChain wf.img w0.c ((vtocOf w0.img w0.c).getD 1 0) ((vtocOf w0.img w0.c).getD 2 0) L.cat := by
     apply CatChain.congr hsz _ hd.cat
     intro x hx
-    by_cases hxu : x = K.ud
+    by_cases hxu : x = ud
     · subst hxu; rw [hudF]; exact ⟨hd1, hd2⟩
     · rw [hsysO x (sys_mem_cat hx) hxu (hcat17 x hx)]; exact ⟨rfl, rfl⟩
   have hE1 : entsOf wf.img C1 = entsOf w0.img C1 := entsOf_congr (fun x hx =>
-    hsysO x (sys_mem_cat (by rw [hcat]; exact List.mem_append_left _ hx)) (fun (e : x = K.ud) => hC1 (e ▸ hx))
+    hsysO x (sys_mem_cat (by rw [hcat]; exact List.mem_append_left _ hx)) (fun (e : x = ud) => hC1 (e ▸ hx))
       (hcat17 x (by rw [hcat]; exact List.mem_append_left _ hx)))
   have hE2 : entsOf wf.img C2 = entsOf w0.img C2 := entsOf_congr (fun x hx =>
-    hsysO x (sys_mem_cat (by rw [hcat]; exact List.mem_append_right _ (List.mem_cons_of_mem _ hx))) (fun (e : x = K.ud) => hC2 (e ▸ hx))
+    hsysO x (sys_mem_cat (by rw [hcat]; exact List.mem_append_right _ (List.mem_cons_of_mem _ hx))) (fun (e : x = ud) => hC2 (e ▸ hx))
       (hcat17 x (by rw [hcat]; exact List.mem_append_right _ (List.mem_cons_of_mem _ hx))))
-  obtain ⟨t', s', ht', hs', hue, hult⟩ := catChain_mem hd.cat K.ud hud
+  obtain ⟨t', s', ht', hs', hue, hult⟩ := catChain_mem hd.cat ud hud
   rw [W.img_size] at hult
-  have hbl : (sec w0.img K.ud).length = 256 := sec_img_length hok hult
-  generalize hA : entsOf w0.img C1 ++ (entsOfSec (sec w0.img K.ud)).take e = A
-  generalize hB : (entsOfSec (sec w0.img K.ud)).drop (e + 1) ++ entsOf w0.img C2 = B
-  have hents : entsOf w0.img L.cat = A ++ entryAt (sec w0.img K.ud) e :: B := by
-    rw [hcat, entsOf_append, entsOf_cons, entsOfSec_split (b := sec w0.img K.ud) (nm := List.replicate 30 0) hbl he (by simp), ← hA, ← hB]
+  have hbl : (sec w0.img ud).length = 256 := sec_img_length hok hult
+  generalize hA : entsOf w0.img C1 ++ (entsOfSec (sec w0.img ud)).take e = A
+  generalize hB : (entsOfSec (sec w0.img ud)).drop (e + 1) ++ entsOf w0.img C2 = B
+  have hents : entsOf w0.img L.cat = A ++ entryAt (sec w0.img ud) e :: B := by
+    rw [hcat, entsOf_append, entsOf_cons, entsOfSec_split (b := sec w0.img ud) (nm := List.replicate 30 0) hbl he (by simp), ← hA, ← hB]
     simp [List.append_assoc]
   have hents' : entsOf wf.img L.cat = A ++ enew :: B := by
     rw [hcat, entsOf_append, entsOf_cons, hE1, hE2, hudF, hde, ← hA, ← hB]
     simp [List.append_assoc]
+  have htt35 : tt < 35 := tsChain_first hb.chain
   have hlivenew : isLive enew = true := by
-    apply isLive_of; rw [hn0]; have := hk.htt; omega
+    apply isLive_of; rw [hn0]; omega
   have hlv : liveOf w0.img L.cat = A.filter isLive ++ B.filter isLive := by
     unfold liveOf; rw [hents, List.filter_append, List.filter_cons, if_neg (by rw [hdead]; simp)]
   have hlv' : liveOf wf.img L.cat = A.filter isLive ++ enew :: B.filter isLive := by
@@ -192,85 +147,65 @@ theorem put_entry {w0 : W} {sb : List Nat} {L : Lay} (hi : WInv w0 sb L) {K : PC
   have hF1 := filesOf_congr hsz hA2 (fun f hf => hownO f (by rw [hvf]; exact List.mem_append_left _ hf))
   have hF2 := filesOf_congr hsz hB2 (fun f hf => hownO f (by rw [hvf]; exact List.mem_append_right _ hf))
   -- the new file's chain
-  have huTlt : K.uT < wf.img.units.size := by rw [hsz, W.img_size, hok.size]; exact hnew_lt _ (Or.inl rfl)
-  have hpairs : PairsOk wf.img w0.c st.tsl := by
-    intro k hk1 h0
-    refine ⟨(hpb k hk1 h0).1, (hpb k hk1 h0).2, ?_⟩
-    rw [hsz, W.img_size, hok.size]; exact unit_lt (hpb k hk1 h0).1 (hpb k hk1 h0).2
-  have hchain : FileChain wf.img w0.c enew [K.uT] := by
-    refine ⟨?_, by simp, by simp⟩
-    rw [hn0, hn1]
-    refine ⟨⟨hk.htt, by rw [← hK3]; exact hk.htsec, by rw [hk.huT, hK3], huTlt, by rw [hT]; exact hpairs⟩, ?_, ?_⟩
-    · rw [hT]; exact hli.next0.1
-    · rw [hT]; exact hli.next0.2
-  have hvf' : filesOf wf.img w0.c (liveOf wf.img L.cat) (T1 ++ [K.uT] :: T2) =
-      filesOf w0.img w0.c (A.filter isLive) T1 ++ recOf wf.img w0.c enew [K.uT] :: filesOf w0.img w0.c (B.filter isLive) T2 := by
+  have hperm := chainUnits_perm (r := wf.img) (c := w0.c) U 0
+  have hownNd : (U ++ (walkOf wf.img w0.c 0 U).map (·.2.2)).Nodup := hperm.nodup_iff.1 hacc.nodup
+  have hUnd : U.Nodup := (List.nodup_append.1 hownNd).1
+  have hUlen : U.length ≤ 1000 := by
+    have h1 : U ⊆ List.range (35 * w0.c) := by
+      intro x hx; exact List.mem_range.2 (hnew_lt x (mem_chainUnits_list hx))
+    have h2 := List.Nodup.length_le_of_subset hUnd h1
+    rw [List.length_range] at h2
+    have := hok.hc
+    omega
+  have hchain : FileChain wf.img w0.c enew U := by
+    refine ⟨?_, hUlen, hUnd⟩
+    rw [hn0, hn1]; exact hb.chain
+  have hvf' : filesOf wf.img w0.c (liveOf wf.img L.cat) (T1 ++ U :: T2) =
+      filesOf w0.img w0.c (A.filter isLive) T1 ++ recOf wf.img w0.c enew U :: filesOf w0.img w0.c (B.filter isLive) T2 := by
     rw [hlv', filesOf_append hlen1, filesOf_cons, hF1.1, hF2.1]
-  have hvol : volOf wf.img w0.c sb { cat := L.cat, tsls := T1 ++ [K.uT] :: T2 } =
+  have hvol : volOf wf.img w0.c sb { cat := L.cat, tsls := T1 ++ U :: T2 } =
       inserted (volOf w0.img w0.c sb L) (filesOf w0.img w0.c (A.filter isLive) T1) (filesOf w0.img w0.c (B.filter isLive) T2)
-        (recOf wf.img w0.c enew [K.uT]) (freeOf wf.img w0.c) := by
+        (recOf wf.img w0.c enew U) (freeOf wf.img w0.c) := by
     unfold volOf inserted
     simp only [hvf', hgv 6 (by decide) (by decide) (by decide)]
     rfl
   -- the record
-  have hwalk : walkOf wf.img w0.c 0 [K.uT] = hereOf wf.img w0.c st.tsl 0 := by simp [walkOf, hT]
-  have hown : (recOf wf.img w0.c enew [K.uT]).owned = K.uT :: pairUnits w0.c st.tsl (List.range 122) := by
-    show [K.uT] ++ (walkOf wf.img w0.c 0 [K.uT]).map (·.2.2) = _
-    rw [hwalk, hereOf_units]; rfl
-  have hchunks : (recOf wf.img w0.c enew [K.uT]).chunks = (hereOf wf.img w0.c st.tsl 0).map (fun x => (x.1, x.2.1)) := by
-    show (walkOf wf.img w0.c 0 [K.uT]).map (fun x => (x.1, x.2.1)) = _
-    rw [hwalk]
-  have hmemD : ∀ x, x ∈ pairUnits w0.c st.tsl (List.range 122) ↔ ∃ k, k < 122 ∧ pairT st.tsl k ≠ 0 ∧ x = K.unit st.tsl k := by
-    intro x; rw [mem_pairUnits]; unfold PCtx.unit; rw [hK3]
-  have hgn : (recOf wf.img w0.c enew [K.uT]).owned.Nodup := by
-    rw [hown]
-    refine List.nodup_cons.2 ⟨?_, ?_⟩
-    · rw [hmemD]; rintro ⟨k, hk1, h0, e⟩; exact (hli.dfree k hk1 h0).2 e.symm
-    · unfold pairUnits
-      apply nodup_filterMap_inj List.nodup_range
-      intro a b x ha hb hfa hfb
-      have ha0 : pairT st.tsl a ≠ 0 := fun h => by simp [h] at hfa
-      have hb0 : pairT st.tsl b ≠ 0 := fun h => by simp [h] at hfb
-      simp only [ha0, if_false, Option.some.injEq] at hfa
-      simp only [hb0, if_false, Option.some.injEq] at hfb
-      apply hli.inj a b (List.mem_range.1 ha) (List.mem_range.1 hb) ha0 hb0
-      unfold PCtx.unit; rw [hK3, hfa, hfb]
-  have hgf : ∀ x ∈ (recOf wf.img w0.c enew [K.uT]).owned, x ∈ (volOf w0.img w0.c sb L).freeUnits := by
+  have hmemO : ∀ x, x ∈ (recOf wf.img w0.c enew U).owned ↔ x ∈ chainUnits wf.img w0.c U :=
+    fun x => (mem_chainUnits_owned x).symm
+  have hchunks : (recOf wf.img w0.c enew U).chunks = stored chunks (List.range endIdx) := hacc.walk
+  have hgn : (recOf wf.img w0.c enew U).owned.Nodup := hownNd
+  have hgf : ∀ x ∈ (recOf wf.img w0.c enew U).owned, x ∈ (volOf w0.img w0.c sb L).freeUnits := by
     intro x hx
-    rw [hown, List.mem_cons, hmemD] at hx
+    rw [hmemO] at hx
     show x ∈ freeOf w0.img w0.c
     rw [freeOf_eq hok]
     exact mem_freeList.2 ⟨hnew_lt x hx, hnew_free x hx⟩
   have hfnd : (freeOf wf.img w0.c).Nodup := (List.filter_sublist (l := List.range (35 * w0.c))).nodup List.nodup_range
-  have hfree : ∀ x, x ∈ freeOf wf.img w0.c ↔ x ∈ (volOf w0.img w0.c sb L).freeUnits ∧ x ∉ (recOf wf.img w0.c enew [K.uT]).owned := by
+  have hfree : ∀ x, x ∈ freeOf wf.img w0.c ↔ x ∈ (volOf w0.img w0.c sb L).freeUnits ∧ x ∉ (recOf wf.img w0.c enew U).owned := by
     intro x
     show _ ↔ x ∈ freeOf w0.img w0.c ∧ _
     have e1 := freeOf_eq hokf
     rw [hcf] at e1
-    rw [e1, freeOf_eq hok, mem_freeList, mem_freeList, hown]
+    rw [e1, freeOf_eq hok, mem_freeList, mem_freeList, hmemO]
     constructor
     · rintro ⟨a, b⟩
-      have ht := hli.taken
-      rw [hK2, hK3] at ht
-      rw [isFreeU_taken ht a] at b
+      rw [isFreeU_taken hacc.taken a] at b
       simp only [Bool.and_eq_true, Bool.not_eq_true', decide_eq_false_iff_not] at b
       exact ⟨⟨a, b.1⟩, b.2⟩
     · rintro ⟨⟨a, b⟩, c'⟩
-      have ht := hli.taken
-      rw [hK2, hK3] at ht
       refine ⟨a, ?_⟩
-      rw [isFreeU_taken ht a, b]
+      rw [isFreeU_taken hacc.taken a, b]
       simpa using c'
-  have hcp : ((recOf wf.img w0.c enew [K.uT]).chunks.map (·.1)).Pairwise (· < ·) := by
-    rw [hchunks]; exact hereOf_idx _ _ _
+  have hcp : ((recOf wf.img w0.c enew U).chunks.map (·.1)).Pairwise (· < ·) := by
+    rw [hchunks]; exact stored_idx _ _
   have hwf' := wfB_insert hvf hi.wf hgn hgf hfnd hfree hfresh hcp
-  refine ⟨T1, T2, _, _, ⟨hokf, ?_, ?_, ?_, hi.catNe, by rw [hcf]; exact hi.cover, hli.aok.track1, hli.aok.lastTrack⟩,
-    hvf, hvol, hown, hchunks, hwf', hgn, hgf, hfnd, hfree, hcp⟩
+  refine ⟨T1, T2, _, _, ⟨hokf, ?_, ?_, ?_, hi.catNe, by rw [hcf]; exact hi.cover, hb.aok.track1, hb.aok.lastTrack⟩,
+    hvf, hvol, hchunks, hwf', hgn, hgf, hfnd, hfree, hcp⟩
   · rw [hcf]
     refine ⟨hd.hc, by rw [hsz]; exact hd.size, by rw [hgv _ (by decide) (by decide) (by decide)]; exact hd.vTracks,
       by rw [hgv _ (by decide) (by decide) (by decide)]; exact hd.vSpt, by rw [hgv _ (by decide) (by decide) (by decide)]; exact hd.vPairs,
       by rw [hgv _ (by decide) (by decide) (by decide), hgv _ (by decide) (by decide) (by decide)]; exact hcatch, hd.catNodup, hd.catLen, ?_⟩
-    show All2 (FileChain wf.img w0.c) (liveOf wf.img L.cat) (T1 ++ [K.uT] :: T2)
+    show All2 (FileChain wf.img w0.c) (liveOf wf.img L.cat) (T1 ++ U :: T2)
     rw [hlv']
     exact All2.append hF1.2 (All2.cons hchain hF2.2)
   · rw [hcf, hvol]; exact hwf'
